@@ -33,17 +33,17 @@ TABLE = {
     "des_crypt": ("des", 8, ""), "ldap_des_crypt": ("des", 8, ""), "django_des_crypt": ("des", 8, ""), "crypt16": ("des", 16, ""),
     "bigcrypt": ("des_all", 0, ""), "bsdi_crypt": ("des_all", 0, ""), "ldap_bsdi_crypt": ("des_all", 0, ""),
     "bcrypt": ("trunc", 72, ""), "ldap_bcrypt": ("trunc", 72, ""), "django_bcrypt": ("trunc", 72, ""),
-    "bcrypt_sha256": ("exact_nulrej", 0, "n"), "django_bcrypt_sha256": ("exact_nulrej", 0, "n"),
-    "md5_crypt": ("exact_nulrej", 0, ""), "apr_md5_crypt": ("exact_nulrej", 0, "n"), "ldap_md5_crypt": ("exact_nulrej", 0, ""),
+    "bcrypt_sha256": ("exact", 0, ""), "django_bcrypt_sha256": ("exact", 0, ""),
+    "md5_crypt": ("exact_nulrej", 0, ""), "apr_md5_crypt": ("exact_nulrej", 0, ""), "ldap_md5_crypt": ("exact_nulrej", 0, ""),
     "sha1_crypt": ("exact_nulrej", 0, ""), "ldap_sha1_crypt": ("exact_nulrej", 0, ""),
     "sha256_crypt": ("exact_nulrej", 0, ""), "sha512_crypt": ("exact_nulrej", 0, ""), "ldap_sha256_crypt": ("exact_nulrej", 0, ""),
-    "ldap_sha512_crypt": ("exact_nulrej", 0, ""), "sun_md5_crypt": ("exact_nulrej", 0, "n"),
+    "ldap_sha512_crypt": ("exact_nulrej", 0, ""), "sun_md5_crypt": ("exact", 0, ""),
     "lmhash": ("lm", 14, "tez"), "cisco_pix": ("reject", 16, "uz"), "cisco_asa": ("reject", 32, "uz"),
     "mysql323": ("blanks", 0, ""), "mssql2000": ("fold", 0, "t"), "oracle10": ("fold", 0, "tuz"),
     "unix_disabled": ("dis", 0, ""), "django_disabled": ("dis", 0, ""),
     "nthash": ("exact", 0, "t"), "bsd_nthash": ("exact", 0, "t"), "msdcc": ("exact", 0, "tu"), "msdcc2": ("exact", 0, "tu"),
     "mssql2005": ("exact", 0, "t"), "oracle11": ("exact", 0, "t"), "postgres_md5": ("exact", 0, "u"), "htdigest": ("exact", 0, "ur"),
-    "scram": ("exact", 0, "tz"), "cisco_type7": ("exact", 0, "n"), "ldap_plaintext": ("exact", 0, "tp"), "plaintext": ("exact", 0, "tp"),
+    "scram": ("exact", 0, "tz"), "cisco_type7": ("exact", 0, ""), "ldap_plaintext": ("exact", 0, "tp"), "plaintext": ("exact", 0, "tp"),
     "roundup_plaintext": ("exact", 0, "tp"),
 }
 #: HMAC zero-pads its key: for formats that key an HMAC with the password, trailing NUL bytes are equivalent by the
@@ -142,10 +142,11 @@ def edge_passwords(chk, name, h, w, klass, flags):
     if "r" in flags:
         ctxkw["realm"] = "realm"
     base = cheap_settings(name, h)
-    for ident in idents:
+    combos = [dict(ident=i) if i else {} for i in idents] + VARIANTS.get(name, [])
+    for extra in combos:
+        ident = extra.get("ident") or ",".join(f"{k}={v}" for k, v in extra.items()) or None
         kw = dict(base)
-        if ident:
-            kw["ident"] = ident
+        kw.update(extra)
         try:
             hh = h.using(**kw) if kw else h
         except Exception:
@@ -167,6 +168,120 @@ def edge_passwords(chk, name, h, w, klass, flags):
                 chk.violation(f"{name}:edge:{ident or '-'}:{res}", f"{name} (ident {ident}): password {pw!r} / near miss {other!r} verify as {res}", {"hasher": name, "ident": ident, "hash": stored})
 
 
+#: settings under which the shortest passwords are tried as well (one hash + verify each)
+VARIANTS = {"scrypt": [dict(block_size=64), dict(parallelism=65), dict(block_size=1, parallelism=1)], "fshp": [dict(variant=0), dict(variant=2), dict(variant=3)],
+            "bcrypt_sha256": [dict(version=1)], "sun_md5_crypt": [dict(rounds=0)], "phpass": [dict(ident="H")], "sha256_crypt": [dict(rounds=5000)],
+            "pbkdf2_sha256": [dict(salt_size=0)], "ldap_salted_sha1": [dict(salt_size=4), dict(salt_size=16)], "cisco_type7": [dict(salt=0), dict(salt=52)]}
+
+
+def policy_edges(chk, name, h, w, klass, limit, flags):
+    """C05 edges stated by the class record, tried explicitly for every hasher (text and bytes forms):
+    NUL is refused wherever it stands (nul = "reject"); a truncation policy switched on and off again is off;
+    a context containing a disabled-account handler still applies the size limit and the type check"""
+    from passlib.context import CryptContext
+    ctxkw = {}
+    if "u" in flags:
+        ctxkw["user"] = "user"
+    if "r" in flags:
+        ctxkw["realm"] = "realm"
+    base = cheap_settings(name, h)
+    try:
+        hh = h.using(**base) if base else h
+    except Exception:
+        return
+    klass_rec = CLASSES[klass]
+    if 'nul |-> "reject"' in klass_rec and "z" not in flags:
+        good = hh.hash("abc", **ctxkw)
+        for pw in ("a\0b", "\0", "abcdefgh\0", "x" * 20 + "\0", "\0abc"):
+            for form in (pw, pw.encode()):
+                for op in ("hash", "verify"):
+                    chk.count((name, "nul-edge", op, type(form).__name__, pw.index("\0") >= 8))
+                    chk.action("nul-edge")
+                    try:
+                        r = hh.hash(form, **ctxkw) if op == "hash" else hh.verify(form, good, **ctxkw)
+                        got = "ok" if op == "hash" else str(r)
+                    except Exception as e:
+                        got = error_class(e)
+                    chk.evaluations += 1
+                    if got != "NullError":
+                        chk.violation(f"{name}:{op}:NullError->{got}:nul-edge", f"{name}.{op} of a {type(form).__name__} password with NUL at index {pw.index(chr(0))} gave {got}, spec says NullError",
+                                      {"hasher": name, "password": repr(form), "op": op})
+    if klass in ("des", "trunc", "lm") and "truncate_error" in h.setting_kwds:
+        # switched on, then off again on the derived hasher / through a context that overrides a strict hasher object
+        long_pw = b"x" * (limit + 1)
+        short_pw = long_pw[:limit]
+        strict = hh.using(truncate_error=True)
+        routes = {"using(on).using(off)": lambda: strict.using(truncate_error=False),
+                  "context over a strict hasher object": lambda: CryptContext(schemes=[strict], **{f"{name}__truncate_error": False}).handler(name),
+                  "using(off).using(on).using(off)": lambda: hh.using(truncate_error=False).using(truncate_error=True).using(truncate_error=False)}
+        for label, mk in routes.items():
+            chk.count((name, "te-off", label))
+            chk.action("te-off")
+            try:
+                off = mk()
+                st = off.hash(long_pw, **ctxkw)
+                got = ("ok", off.verify(short_pw, st, **ctxkw))
+            except Exception as e:
+                got = (error_class(e), None)
+            chk.evaluations += 1
+            if got != ("ok", True):
+                chk.violation(f"{name}:te-off:{got[0]}", f"{name}: truncate_error switched off again ({label}): hashing {limit + 1} bytes gave {got}; spec: truncates silently", {"hasher": name, "route": label})
+        try:
+            strict.hash(long_pw, **ctxkw)
+            got = "ok"
+        except Exception as e:
+            got = error_class(e)
+        if got != "TruncateError":
+            chk.violation(f"{name}:te-on:{got}", f"{name}.using(truncate_error=True).hash of {limit + 1} bytes gave {got}", {"hasher": name})
+    if klass == "dis":
+        other = "md5_crypt"
+        for order in ([name, other], [other, name]):
+            cc = CryptContext(schemes=order)
+            for stored in ("!", "*" if name == "unix_disabled" else "!x", cc.disable()):
+                if not cc.identify(stored):
+                    continue
+                for secret, want in ((b"x" * 4097, "SizeError"), ("y" * 4097, "SizeError"), (None, "Other:TypeError"), (1, "Other:TypeError"), ("pw", "False")):
+                    for op in ("verify", "verify_and_update"):
+                        chk.count((name, "dis-ctx", op, want, order[0] == name))
+                        chk.action("disabled-context")
+                        try:
+                            r = getattr(cc, op)(secret, stored)
+                            got = str(r if op == "verify" else r[0])
+                        except Exception as e:
+                            got = error_class(e)
+                        chk.evaluations += 1
+                        if got != want:
+                            chk.violation(f"{name}:ctx-{op}:{want}->{got}", f"CryptContext({order}).{op}({type(secret).__name__} secret of {len(secret) if hasattr(secret, '__len__') else '-'}, {stored!r}) gave {got}, spec {want}",
+                                          {"schemes": order, "stored": stored, "secret_type": type(secret).__name__})
+
+
+def encoding_edges(chk, name, h, flags):
+    """hashers taking an `encoding` context keyword: a text password and its encoded bytes are the same password"""
+    if "encoding" not in getattr(h, "context_kwds", ()):
+        return
+    ctxkw = {}
+    if "user" in h.context_kwds:
+        ctxkw["user"] = "us\xe9r"
+    if "realm" in h.context_kwds:
+        ctxkw["realm"] = "r\xe9alm"
+    for enc in ("latin-1", "utf-8", "cp1252"):
+        for text in ("caf\xe9", "p\xe4ss w\xf6rd", "plain"):
+            chk.count((name, "encoding", enc))
+            chk.action("encoding")
+            try:
+                raw = text.encode(enc)
+                a = h.hash(text, encoding=enc, **ctxkw)
+                b = h.hash(raw, encoding=enc, **ctxkw)
+                res = (h.verify(raw, a, encoding=enc, **ctxkw), h.verify(text, b, encoding=enc, **ctxkw), h.verify(text + "x", a, encoding=enc, **ctxkw))
+            except Exception as e:
+                chk.violation(f"{name}:encoding:{type(e).__name__}", f"{name} with encoding={enc}: {type(e).__name__}: {e}", {"hasher": name, "encoding": enc, "text": text})
+                continue
+            chk.evaluations += 3
+            if res != (True, True, False):
+                chk.violation(f"{name}:encoding:{enc}:{res}", f"{name} with encoding={enc}: text {text!r} and its encoded bytes verify against each other's hashes as {res[:2]} (extension: {res[2]})",
+                              {"hasher": name, "encoding": enc, "text": text, "hash_of_text": a, "hash_of_bytes": b})
+
+
 def run_shared(chk, focus):
     """focus = "C01": every hasher, all classes, near misses;  "C05": truncation / size / NUL policies"""
     warnings.simplefilter("ignore")
@@ -180,7 +295,7 @@ def run_shared(chk, focus):
     chk.add_tlc("MC_HashVerify exhaustive over the class lattice (all passwords x all near misses)", r)
     hs = handlers(chk)
     if focus == "C05":
-        hs = [(n, h) for n, h in hs if TABLE.get(n, DEFAULT)[0] in ("des", "trunc", "lm", "reject", "des_all") or n in ("md5_crypt", "sha256_crypt", "pbkdf2_sha256", "hex_sha1", "mysql41", "plaintext", "sha512_crypt", "scram", "nthash", "ldap_salted_sha1")] + \
+        hs = [(n, h) for n, h in hs if TABLE.get(n, DEFAULT)[0] in ("des", "trunc", "lm", "reject", "des_all") or n in ("md5_crypt", "sha256_crypt", "pbkdf2_sha256", "hex_sha1", "mysql41", "plaintext", "sha512_crypt", "scram", "nthash", "ldap_salted_sha1", "unix_disabled", "django_disabled", "apr_md5_crypt")] + \
              [(n, h) for n, h in hs if TABLE.get(n, DEFAULT)[0] == "exact_nulrej" and n not in ("md5_crypt", "sha256_crypt", "sha512_crypt")]
     cases = {}
     per_hasher = (12 if quick else 60) if focus == "C01" else (9 if quick else 80)
@@ -189,6 +304,10 @@ def run_shared(chk, focus):
         w = getattr(h, "wrapped", h)
         if focus == "C01":
             edge_passwords(chk, name, h, w, klass, flags)
+            if klass == "exact":          # (case-folding formats treat text and bytes differently by design)
+                encoding_edges(chk, name, h, flags)
+        else:
+            policy_edges(chk, name, h, w, klass, limit, flags)
         if getattr(w, "truncate_size", None) and klass not in ("des", "trunc", "lm", "reject", "trunc_nulok"):
             chk.uncovered.append(f"{name}: declares truncate_size={w.truncate_size} but is tabled as {klass}")
         modes = ["trunc"] if focus == "C01" else ["trunc", "size"]
